@@ -47,6 +47,8 @@ def cases(tier, seed):
         out.append({"gen": "mape", "id": "mape-%d" % k, "sub": seed * 100003 + k})
     for n in (list(range(4, 30, 3)) if tier == "quick" else list(range(4, 90, 2))):
         out.append({"gen": "regressor", "id": "reg-n%d" % n, "n": n, "tier": tier})
+    for k in range(8 if tier == "quick" else 80):
+        out.append({"gen": "missing", "id": "missing-%d" % k, "sub": seed * 100003 + k})
     return out
 
 
@@ -298,6 +300,47 @@ def run_table(case, ctx):
                         "w0": plain[2][0]})
 
 
+def run_missing(case, ctx):
+    """Series and exogenous blocks with missing observations (NaN inside the data): the same_rows table is still the
+    plain table left-padded with NaN - a NaN that comes from the data is data, not padding."""
+    from mlinsights.timeseries.utils import build_ts_X_y
+    rng = numpy.random.RandomState(case["sub"] % (2 ** 31))
+    for rep in range(12):
+        n = int(rng.randint(6, 30))
+        past = int(rng.randint(1, 4))
+        delay2 = int(rng.randint(2, 5))
+        ncol = int(rng.randint(0, 3))
+        if n - delay2 - past + 2 < 2:
+            continue
+        y = rng.randn(n)
+        X = rng.randn(n, ncol) if ncol else None
+        where = ["series", "exog", "both"][rep % 3] if ncol else "series"
+        if where in ("series", "both"):
+            y[rng.randint(0, n, size=2)] = numpy.nan
+        if where in ("exog", "both") and ncol:
+            X[rng.randint(0, n), rng.randint(ncol)] = numpy.nan
+        w = rng.rand(n) if rep % 2 else None
+        cfg = {"n": n, "past": past, "delay2": delay2, "ncol": ncol, "missing_in": where, "sub": case["sub"]}
+        m = Model(past, delay2)
+        try:
+            plain = build_ts_X_y(m, X, y, w, same_rows=False)
+            padded = build_ts_X_y(m, X, y, w, same_rows=True)
+        except Exception as e:
+            ctx.violation("C20/build_ts_X_y/raised", "missing observations: %s: %s" % (type(e).__name__, e), cfg=cfg)
+            continue
+        ctx.hit("build_ts_X_y.missing_observations")
+        nrow = plain[0].shape[0]
+        px, py = numpy.asarray(padded[0], dtype=float), numpy.asarray(padded[1], dtype=float)
+        ok = (px.shape[0] == n and numpy.isnan(px[: n - nrow]).all() and numpy.isnan(py[: n - nrow]).all()
+              and numpy.array_equal(px[n - nrow:], numpy.asarray(plain[0], dtype=float), equal_nan=True)
+              and numpy.array_equal(py[n - nrow:], numpy.asarray(plain[1], dtype=float), equal_nan=True))
+        if not ok:
+            ctx.violation("C20/build_ts_X_y/same-rows-mismatch/missing-observations", "with NaN inside the %s the "
+                          "same_rows table is not the plain table left-padded with NaN" % where, cfg=cfg)
+        ctx.nontriv("missing", cfg)
+    ctx.cls("missing-observations")
+
+
 def run_mape(case, ctx):
     from mlinsights.timeseries.metrics import ts_mape
     rng = numpy.random.RandomState(case["sub"] % (2 ** 31))
@@ -332,8 +375,26 @@ def run_mape(case, ctx):
                 lo = prefix + 1 if not (first_arbitrary and prefix == 1) else 1
                 ww = numpy.ones(n) if w is None else w
                 den = float(numpy.sum(numpy.abs(y[lo:] - y[lo - 1:-1]) * ww[lo:])) if lo < n else 0.0
+                yk_, pk_ = y.copy(), pred.copy()
+                wk_ = None if w is None else w.copy()
                 try:
                     v = ts_mape(y, pred, sample_weight=w)
+                    v_again = ts_mape(y, pred, sample_weight=w)
+                    ctx.hit("ts_mape.arguments_untouched")
+                    same_args = (numpy.array_equal(y, yk_) and numpy.array_equal(pred, pk_, equal_nan=True)
+                                 and (w is None or numpy.array_equal(w, wk_)))
+                    if not same_args:
+                        ctx.violation("C20/ts_mape/input-modified", "ts_mape wrote into its arguments (the NaN rows of "
+                                      "the forecast mean 'no forecast')", cfg=cfg)
+                        pred[:] = pk_
+                    elif not (float(v) == float(v_again) or (v != v and v_again != v_again)):
+                        ctx.violation("C20/ts_mape/second-call-differs", "two calls on the same arrays: %r then %r" % (
+                            float(v), float(v_again)), cfg=cfg)
+                    # the forecast as a column (n, 1), as the regressors produce it
+                    v_col = ts_mape(y, pred.reshape(-1, 1).copy(), sample_weight=w)
+                    if not (abs(float(v_col) - float(v)) <= 1e-12 * max(1.0, abs(float(v))) or (v != v and v_col != v_col)):
+                        ctx.violation("C20/ts_mape/column-forecast-differs", "forecast given as a column: %r, as a "
+                                      "vector: %r" % (float(v_col), float(v)), cfg=cfg)
                 except Exception as e:
                     ctx.hit("ts_mape.naive")
                     ctx.violation("C20/ts_mape/raised/%s" % type(e).__name__,
@@ -461,7 +522,7 @@ def run_regressor(case, ctx):
 
 
 def run_case(case, ctx):
-    {"table": run_table, "mape": run_mape, "regressor": run_regressor}[case["gen"]](case, ctx)
+    {"table": run_table, "mape": run_mape, "regressor": run_regressor, "missing": run_missing}[case["gen"]](case, ctx)
 
 
 def evaluations(counters, ncases):
